@@ -1,10 +1,12 @@
 package main
 
 import (
+	"context"
 	"encoding/json"
 	"flag"
 	"fmt"
 	"os"
+	"os/exec"
 	"path/filepath"
 	"sort"
 	"strings"
@@ -558,6 +560,9 @@ func cmdCheck(args []string) int {
 	}
 	wg.Wait()
 	rep := buildReport(ck, dis, results, *prop, *tier, time.Since(t0).Seconds(), tGen.Seconds(), *verbose)
+	if *tier == "thorough" && *only == "" && os.Getenv("GOVC_NO_CANARIES") == "" {
+		rep.canaries = runCanaries(*prop, *repo)
+	}
 	if !*noEvidence && *prop != "" && *only == "" {
 		writeEvidence(rep)
 	}
@@ -565,4 +570,61 @@ func cmdCheck(args []string) int {
 		os.RemoveAll(work)
 	}
 	return rep.exit
+}
+
+// runCanaries (thorough tier): every kept seeded change of this property is applied to a scratch
+// copy of the repository (never to the repository itself) and the quick check is run on the copy;
+// it must report a violation. This shows on every thorough run that the obligations of the property
+// have not become vacuous on the current tree. Results go to the evidence; they do not change the
+// exit status (a change that no longer applies to the current tree is skipped).
+func runCanaries(prop, repo string) []map[string]any {
+	var out []map[string]any
+	dirs, _ := filepath.Glob(filepath.Join(verifDir, "seeded", "*", "meta.json"))
+	sort.Strings(dirs)
+	self, _ := os.Executable()
+	for _, mf := range dirs {
+		b, err := os.ReadFile(mf)
+		if err != nil {
+			continue
+		}
+		var meta struct {
+			ID       string `json:"id"`
+			Property string `json:"property"`
+		}
+		if json.Unmarshal(b, &meta) != nil || meta.Property != prop {
+			continue
+		}
+		res := map[string]any{"seeded": meta.ID}
+		tmp, err := os.MkdirTemp("", "govc_canary_")
+		if err != nil {
+			continue
+		}
+		cp := exec.Command("cp", "-r", repo+"/.", tmp)
+		if err := cp.Run(); err != nil {
+			os.RemoveAll(tmp)
+			continue
+		}
+		ap := exec.Command("git", "-C", tmp, "apply", filepath.Join(filepath.Dir(mf), "patch.diff"))
+		if err := ap.Run(); err != nil {
+			res["applied"] = false
+			out = append(out, res)
+			os.RemoveAll(tmp)
+			continue
+		}
+		res["applied"] = true
+		ctx, cancel := context.WithTimeout(context.Background(), 15*time.Minute)
+		cmd := exec.CommandContext(ctx, self, "check", "--property", prop, "--tier", "quick", "--no-evidence", "--repo", tmp)
+		cmd.Env = append(os.Environ(), "GOVC_NO_CANARIES=1", "GOVC_REPLAY_DIR="+filepath.Join(tmp, ".govc_replays"), "VERIF_TIER=quick")
+		ob, _ := cmd.CombinedOutput()
+		cancel()
+		n := strings.Count(string(ob), "\nVIOLATION ") 
+		if strings.HasPrefix(string(ob), "VIOLATION ") {
+			n++
+		}
+		res["violations_reported"] = n
+		res["caught"] = n > 0 && cmd.ProcessState != nil && cmd.ProcessState.ExitCode() == 1
+		out = append(out, res)
+		os.RemoveAll(tmp)
+	}
+	return out
 }
